@@ -6,25 +6,32 @@
 
   * invariant over ALL event sequences               → `inv_init`, `inv_apply`, `inv_applyAll`
   * "a re-subscription replaces and re-times the existing one instead of adding a second"
-                                                     → `sub_unique`, `resubscribe_replaces`
+                                                     → `sub_unique`, `resubscribe_replaces`,
+                                                        `subscribe_keeps_others`
   * "A SubscribeCOV request is acknowledged and followed by an initial notification"
                                                      → `ack_then_initial`
   * "every change … produces exactly one notification per active subscription, confirmed or
      unconfirmed as requested, carrying the current values and the remaining lifetime"
-                                                     → `change_defers_once`, `notify_exact`,
-                                                        `notification_content`, `periodic_exact`
+                                                     → `change_notifies_all`, `change_defers_once`,
+                                                        `notify_exact`, `periodic_exact`,
+                                                        `notification_content`,
+                                                        `unsubscribed_object_silent`
   * "for analog objects: a change of at least the COV increment since the last reported
      value; for others: any change of value or status flags"
-                                                     → `qualifying_change_analog`, `…_generic`,
-                                                        `…_flags`, `last_reported`
+                                                     → `incrTrigger_iff`, `qualifying_change_analog`,
+                                                        `…_generic`, `…_flags`, `last_reported`,
+                                                        `last_reported_stale`
   * "No notification is sent after cancellation or after the lifetime has elapsed"
                                                      → `no_notify_when_dead`, `cancel_removes`,
                                                         `listed_alive`, `no_raised`
   * "the active-subscriptions list shows exactly the live subscriptions"
                                                      → `active_list_exact`, `active_list_remaining`,
-                                                        `listed_persists_step`
+                                                        and the list is exactly the abstract map
+                                                        key ↦ (confirmed, deadline):
+                                                        `step_listed_iff`, `run_listed_iff`,
+                                                        `write_listed_iff` (+ the subscribe theorems)
   * the tables the model reads (criteria_type_map, tracked / reported properties) are the
-    regenerated ones                                 → `gen_scope_ok`
+    regenerated ones                                 → `gen_scope_ok`, `gen_criteria_known`
 
   "Last reported value" is the object-level one (DESIGN.md §7 C16): any notification about
   the object moves it.
